@@ -515,6 +515,11 @@ pub fn exec(lineno: usize, l: &str) -> String {
                 _ => panic!("bad size"),
             }
         },
+        // projection for C05: only "returned normally?" (the property does not fix the index)
+        "fipp" => {
+            let k = nums()[0] as usize;
+            o.push_str(if guard(|| Five::find_in_products(k)).is_some() { "ok" } else { "P" });
+        },
         "fip" => {
             let k = nums()[0] as usize;
             push_opt(&mut o, guard(|| Five::find_in_products(k)));
